@@ -13,7 +13,13 @@ construct): nothing approximate is ever emitted.
                with `sint` overflow faults), `uint8_t *` = pointer into the one byte array of
                the function (`ptr`), `struct T *` parameter = record value in/out,
                `const struct T *` = record value, `uintN_t *` parameter (not uint8_t) = scalar
-               in/out, static const struct / const integer array globals.
+               in/out, `const intN_t *` parameter (N > 8) = read-only array (list, bounds
+               checked), static const struct / const integer array globals.  Struct fields of
+               other types (double, arrays, nested structs) are left out of the record; using
+               one is Unsupported.
+  fragments    a run of consecutive statements of one block of a function (FILES: a tuple),
+               translated as a function of the variables it uses; for functions that are
+               mostly I/O or floating point around a small integer core.
   expressions  literals, enum constants, + - * / % & | ^ ~ << >> comparisons && || ! ?:,
                casts, field access, p[i], *p, p + n, p - q, &local / &GLOBAL as call argument,
                sizeof(primitive type), calls of translated functions, memset.
@@ -22,8 +28,12 @@ construct): nothing approximate is ever emitted.
                explicit fuel, out of fuel = Fault Out_of_fuel), break, continue, return.
   dropped      statements that only call jls_log_printf (arguments must be free of side
                effects); they are listed in a comment of the generated function.
+               A variable declared without initialiser has no Gallina binding until it is
+               assigned: reading it earlier is an unbound-variable error of coqc.
 ASSUMPTIONS written into every generated file: struct / scalar pointer parameters are
 valid and do not alias; all `uint8_t *` values of one function point into one array.
+Exit status: 0 ok; 3 = some construct is outside the subset (the tie is broken; the
+previous generated file is left untouched); 2 = usage.
 """
 import hashlib, json, os, subprocess, sys
 
@@ -68,9 +78,16 @@ class Unsupported(Exception):
     pass
 
 
+SOURCE = {"text": ""}      # text of the C file being translated (for line numbers in messages)
+
+
 def bad(node, what):
     loc = node.get("range", {}).get("begin", {})
-    raise Unsupported("%s [%s line %s col %s]" % (what, node.get("kind"), loc.get("line", "?"), loc.get("col", "?")))
+    loc = loc.get("expansionLoc", loc)
+    where = "?"
+    if "offset" in loc and not loc.get("includedFrom") and "file" not in loc:
+        where = "line %d" % (SOURCE["text"].count("\n", 0, loc["offset"]) + 1)
+    raise Unsupported("%s [%s, %s]" % (what, node.get("kind"), where))
 
 
 # ----------------------------------------------------------------------------- types
@@ -1434,6 +1451,7 @@ class Module:
     def __init__(self, modname, src, entries):
         self.modname, self.src, self.entries = modname, src, entries
         self.tu = TU(os.path.join(REPO, src))
+        SOURCE["text"] = self.source_text()
         self.fns, self.order, self.busy = {}, [], set()
         self.records, self.globals_used, self.global_text = [], [], {}
 
